@@ -159,6 +159,21 @@ class P(Prop):
         if c.outputs() != w.outputs() or not c.inputs() <= w.inputs() or not (w.inputs() - c.inputs()) <= {"clk"}:
             self.fail("search", "insert_registers-io", f"io changed: inputs {sorted(w.inputs())} outputs {sorted(w.outputs())}", case)
 
+    def check_insert_registers_plain_flop(self, c, stages):
+        """a D/Q-only flop and no other pins: nothing but flops may be added (not even a clock)"""
+        cj = c_to_json(c)
+        case = {"c": cj, "num_stages": stages, "fn": "insert_registers_plain"}
+        o0, _ = call(cg.tx.insert_registers, c, stages)
+        o, r = call(cg.tx.insert_registers, c, stages, cg.BlackBox("dff", ["D"], ["Q"]), "D", "Q", {})
+        self.search_cases += 1
+        if o0 != "ok":
+            return
+        if o != "ok":
+            self.fail("search", f"insert_registers-plain-raised-{o}", f"insert_registers with a D/Q flop and other_flop_io={{}} raised {o}", case)
+            return
+        if r.inputs() != c.inputs() or r.outputs() != c.outputs():
+            self.fail("search", "insert_registers-plain-io", f"io changed: {sorted(r.inputs())} / {sorted(r.outputs())}", case)
+
     def check_acyclic_unroll(self, c):
         cj = c_to_json(c)
         case = {"c": cj, "fn": "acyclic_unroll"}
@@ -205,7 +220,10 @@ class P(Prop):
                 if o2 == "ok":
                     self.check_limit(d5, 2, "fanout")
             if i % 2 == 0:
-                self.check_insert_registers(c, rng.randint(1, 4))
+                st = rng.randint(1, 4)
+                self.check_insert_registers(c, st)
+                if rng.random() < 0.3:
+                    self.check_insert_registers_plain_flop(c, st)
             if i % 2 == 1:
                 self.check_acyclic_unroll(c)
             if self.too_many():
